@@ -313,15 +313,11 @@ Section Soundness.
     - (* > *) destruct s as [|x [|y r]]; cbn in C; try discriminate C;
     pop1 Hs v1 l1 E1 V1 Hs1; pop1 Hs1 v2 l2 E2 V2 Hs2; subst l1;
     cbn [Bst.builtin_step]; rewrite (pop_cons _ _ _ E1); cbn [bind]; rewrite pop_set_stack; cbn [bind].
-      destruct (is_aint x && is_aint y)%bool eqn:B1.
-      + bools. as_int V1 H. as_int V2 H0. inversion C; subst. cbn. fin.
-      + cond C. as_str V1 H v1; as_str V2 H0 v2; cbn; fin.
+      cond C. as_int V1 H. as_int V2 H0. cbn. fin.
     - (* < *) destruct s as [|x [|y r]]; cbn in C; try discriminate C;
     pop1 Hs v1 l1 E1 V1 Hs1; pop1 Hs1 v2 l2 E2 V2 Hs2; subst l1;
     cbn [Bst.builtin_step]; rewrite (pop_cons _ _ _ E1); cbn [bind]; rewrite pop_set_stack; cbn [bind].
-      destruct (is_aint x && is_aint y)%bool eqn:B1.
-      + bools. as_int V1 H. as_int V2 H0. inversion C; subst. cbn. fin.
-      + cond C. as_str V1 H v1; as_str V2 H0 v2; cbn; fin.
+      cond C. as_int V1 H. as_int V2 H0. cbn. fin.
     - (* = *) destruct s as [|x [|y r]]; cbn in C; try discriminate C;
     pop1 Hs v1 l1 E1 V1 Hs1; pop1 Hs1 v2 l2 E2 V2 Hs2; subst l1;
     cbn [Bst.builtin_step]; rewrite (pop_cons _ _ _ E1); cbn [bind]; rewrite pop_set_stack; cbn [bind].
